@@ -48,7 +48,7 @@ ORDERED_FUNCS = {"sorted", "list", "tuple", "reversed", "enumerate", "zip", "ran
 ORDERED_METHODS = {"split", "rsplit", "splitlines", "finditer", "findall", "groups", "strip", "lstrip", "rstrip",
                    "join", "format", "replace", "lower", "upper", "partition", "rpartition", "iter_child_nodes",
                    "walk", "iter_fields", "group", "title", "capitalize", "expandtabs", "ljust", "rjust", "zfill",
-                   "encode", "decode", "unparse", "dump", "most_common"}
+                   "encode", "decode", "unparse", "dump", "most_common", "fields"}
 SET_METHODS = {"union", "difference", "intersection", "symmetric_difference"}
 DICT_VIEW = {"keys", "items", "values"}
 MUTATORS = {"append", "extend", "insert", "pop", "remove", "clear", "add", "discard", "update", "setdefault",
@@ -486,6 +486,13 @@ class Analyzer:
                     return SCALAR
                 if n in self.rets:
                     return ann_kind(self.rets[n])
+                # an un-annotated function of this module: the join of what its return statements yield
+                fn = self.scopes[self.tree].funcs.get(n)
+                if fn is not None and depth < 8 and fn in self.scopes:
+                    fsc = self.scopes[fn]
+                    rets = [r.value for r in ast.walk(fn) if isinstance(r, ast.Return) and r.value is not None and self.scope_of(r) is fsc]
+                    if rets:
+                        return join_kinds([self.kind(r, fsc, depth + 1) for r in rets])
                 return UNKNOWN
             if isinstance(f, ast.Attribute):
                 m = f.attr
